@@ -1,6 +1,6 @@
 (* C19 — fetched crate sources stay inside the cache and are used only if fully unpacked. *)
 Require Import Base Extracted Unpack.
-Require Import UnpackProofs.
+Require Import UnpackProofs UnpackHistory.
 Local Open Scope N_scope.
 
 (* whatever entry names an archive contains (absolute paths, `..`, other crates'
@@ -49,6 +49,21 @@ Example C19_accepted_tree_nonvacuous :
   fs_get (unpack 9 ar None f) [9; 6] = None /\ fs_get (unpack 9 ar None f) [4; 1] = Some 2.
 Proof. vm_compute. auto 6. Qed.
 
+(* ... and over ANY history: start from a cache in which no directory has a valid marker (the empty cache, say) and run any
+   list of fetches — any crates in any order, each unpack cut short after any number of entries or running to its end, each
+   crate's archive being what the registry serves for it ([arch]) — then in every state reached, every directory whose marker
+   is valid (i.e. every directory a later fetch would hand out without unpacking) holds exactly what its archive says *)
+Theorem C19_accepted_directories_are_complete_unpacks : forall (arch : N -> archive) f0 (evs : list ev),
+  (forall p, fetch_is_ok p f0 = false) ->
+  forall p q, let f := fold_left (do_ev arch) evs f0 in
+  fetch_is_ok p f = true -> under p q = true -> q <> [p; MARKER] -> fs_get f q = archive_says (arch p) q.
+Proof. intros arch f0 evs H0 p q. exact (accepted_directories_are_complete_unpacks arch f0 evs H0 p q). Qed.
+Example C19_history_nonvacuous :
+  let arch := fun p => [ {| en_absolute := false; en_path := [CNormal p; CNormal 5]; en_kind := EFile; en_content := p + 1 |} ] in
+  let f := fold_left (do_ev arch) [(9, Some 0%nat); (4, None); (9, Some 1%nat); (9, None); (9, Some 0%nat)] [] in
+  fetch_is_ok 9 f = true /\ fetch_is_ok 4 f = true /\ fs_get f [9; 5] = Some 10 /\ fs_get f [4; 5] = Some 5.
+Proof. vm_compute. auto. Qed.
+
 (* Entries in the model are regular files and directories: symlink and hard-link entries are
    not unpacked at all (fact re-read from the source) — with them, an archive could write into
    a sibling crate's directory through a link it created itself (original defect, fixed). *)
@@ -70,3 +85,4 @@ Print Assumptions C19_failed_unpack_has_no_marker.
 Print Assumptions C19_retry_is_a_clean_unpack.
 Print Assumptions C19_completed_unpack_has_marker.
 Print Assumptions C19_accepted_tree_is_the_archive.
+Print Assumptions C19_accepted_directories_are_complete_unpacks.
